@@ -67,10 +67,14 @@ SPEC = {
             "field_coverage_pct_min": 100,
         },
         "thorough": {
-            "evaluations": 20_000_000, "distinct_nontrivial": 6000,
-            "tx_v5": 60_000, "tx_v6": 40_000, "field_mutations": 3_000_000,
-            "py_v5_tx_checked": 8000, "py_v5_sighashes_checked": 80_000, "py_pre_v5_txid_checked": 8000,
-            "py_zip244_vectors_validated": 10, "field_coverage_pct_min": 100,
+            "evaluations": 10_000_000, "distinct_nontrivial": 3000,
+            "tx_v5": 15_000, "tx_v6": 10_000, "tx_v4": 9000, "tx_v3": 3000, "tx_v1": 1000, "tx_v2": 1000, "tx_v2hi": 1000,
+            "field_mutations": 800_000, "authorising_field_mutations": 150_000, "coin_mutations": 60_000, "structure_mutations": 120_000,
+            "sighash_must_change_checks": 5_000_000, "sighash_exclusion_checks": 2_000_000, "hash_type_distinctness_checks": 50_000,
+            "coinbase_cases": 4000, "single_index_beyond_outputs_cases": 15_000, "v5plus_without_transparent_inputs": 8000,
+            "branch_personalisation_checks": 12_000, "arb_tx_cases": 300,
+            "py_v5_tx_checked": 8000, "py_v5_sighashes_checked": 80_000, "py_pre_v5_txid_checked": 3000, "py_v5_coinbase_checked": 400,
+            "py_v5_single_out_of_range_checked": 4000, "py_zip244_vectors_validated": 10, "field_coverage_pct_min": 100,
         },
     },
     "manifest": {
@@ -99,17 +103,19 @@ def _check_events(path):
     import sys
     sys.path.insert(0, os.path.dirname(os.path.dirname(os.path.abspath(__file__))))
     from pyref import txlayout, zip244
-    out = {"counts": {}, "viol": [], "broken": [], "notes": []}
+    out = {"counts": {}, "viol": {}, "broken": [], "notes": []}
 
     def cnt(k, n=1):
         out["counts"][k] = out["counts"].get(k, 0) + n
 
     def viol(sig, detail, ev, extra=None):
-        if sum(1 for v in out["viol"] if v[0] == sig) < 3:
+        e = out["viol"].setdefault(sig, {"count": 0, "examples": []})
+        e["count"] += 1
+        if len(e["examples"]) < 3:
             rp = {"tx_hex": ev["hex"][:60000], "branch": ev["branch"], "coins": ev["coins"]}
             if extra:
                 rp.update(extra)
-            out["viol"].append((sig, detail, rp))
+            e["examples"].append({"detail": detail, "replay": rp})
         cnt("py_violations")
 
     if not path or not os.path.exists(path):
@@ -198,8 +204,8 @@ def post(shards, fold, tier, seed):
     for r in results:
         for k, v in r["counts"].items():
             fold.count(k, v)
-        for sig, detail, replay in r["viol"]:
-            fold.violation(sig, [{"detail": detail, "replay": replay}])
+        for sig, e in r["viol"].items():
+            fold.violation(sig, e["examples"], e["count"])
         for b in r["broken"]:
             if b not in fold.broken:
                 fold.broken.append(b)
